@@ -1,14 +1,130 @@
 /-
   C07 — query parameters return exactly the defined projection of the full read.
+
+  Model: node/selection.go BuildConstraints + constraints.go (first veto in priority order) + the
+  individual constraints, applied to a read of a data tree (`projTarget`, `projTargetList`).
 -/
-import YangVerif.Model.Query
+import YangVerif.Proofs.Query
 namespace YangVerif.C07
 open YangVerif.Query
 
-/-- first veto wins = every check passes -/
-theorem firstVeto_eq_all (bs : List Bool) : firstVeto bs = bs.all id := by
-  induction bs with
-  | nil => rfl
-  | cons b r ih => cases b <;> simp [firstVeto, ih]
+/-- **every field-path expression means what the grammar says**: for every expression — nested paths,
+    alternatives, groups anywhere in a path (also first, also followed by more), any nesting — the
+    parser (`parsex`, with its three list operations) returns exactly the paths the expression
+    denotes, in order -/
+theorem path_expression_meaning (e : List (List Atom)) : parseExpr (renderAlts e) = some (denoteAlts e) :=
+  parseExpr_eq_denote e
+
+/-- **the matcher is the prefix relation**: a node is *selected* by a path iff the path is a beginning
+    (or all) of the node's path below the target; it *leads to* it iff it is a proper beginning of it.
+    (The index walk from the end of the candidate, for paths of any lengths — the shorter-candidate
+    case is the one that used to panic.) -/
+theorem selected_iff_prefix (segs rel : Path) : selected segs rel = true ↔ segs <+: rel := selected_iff segs rel
+theorem leadsTo_iff_proper_prefix (segs rel : Path) :
+    leadsTo segs rel = true ↔ (rel <+: segs ∧ rel.length < segs.length) := leadsTo_iff segs rel
+
+/-- **combining parameters gives the intersection**: the checks run in priority order and the first veto
+    wins, which is the conjunction of the four single-parameter conditions, in any order -/
+theorem visible_is_conjunction (q : Query) (isLeaf cfg : Bool) (rel : Path) :
+    visible q isLeaf cfg rel = (depthOK q rel && fieldsOK q rel && xfieldsOK q rel && contentOK q isLeaf cfg) := by
+  unfold visible
+  rw [firstVeto_eq_all]
+  simp [preChecks, Bool.and_assoc]
+
+/-- `fields`: visible iff some named path is a beginning of the node's path (the node is named or lies
+    below a named node) or the node's path is a proper beginning of a named path (it lies on the way) -/
+theorem fields_visible_iff (ps : List Path) (isLeaf cfg : Bool) (rel : Path) (hne : ps ≠ []) (hseg : ∀ p ∈ ps, p ≠ []) :
+    visible { fields := some ps } isLeaf cfg rel = true ↔
+      ∃ p ∈ ps, p <+: rel ∨ (rel <+: p ∧ rel.length < p.length) := by
+  rw [visible_is_conjunction]
+  have hE : ps.isEmpty = false := by cases ps <;> simp at hne ⊢
+  simp only [depthOK, fieldsOK, xfieldsOK, contentOK, Bool.true_and, Bool.and_true, Bool.or_eq_true, pathMatches,
+    pathLeadsTo, hE, Bool.false_or, List.any_eq_true]
+  constructor
+  · rintro (⟨p, hp, h⟩ | ⟨p, hp, h⟩)
+    · rcases h with h | h
+      · have := hseg p hp; cases p <;> simp at h this
+      · exact ⟨p, hp, Or.inl ((selected_iff p rel).1 h)⟩
+    · exact ⟨p, hp, Or.inr ((leadsTo_iff p rel).1 h)⟩
+  · rintro ⟨p, hp, h | h⟩
+    · exact Or.inl ⟨p, hp, Or.inr ((selected_iff p rel).2 h)⟩
+    · exact Or.inr ⟨p, hp, (leadsTo_iff p rel).2 h⟩
+
+/-- `fc.xfields`: hidden iff some named path is a beginning of the node's path -/
+theorem xfields_hidden_iff (ps : List Path) (isLeaf cfg : Bool) (rel : Path) (hne : ps ≠ []) (hseg : ∀ p ∈ ps, p ≠ []) :
+    visible { xfields := some ps } isLeaf cfg rel = false ↔ ∃ p ∈ ps, p <+: rel := by
+  rw [visible_is_conjunction]
+  have hE : ps.isEmpty = false := by cases ps <;> simp at hne ⊢
+  simp only [depthOK, fieldsOK, xfieldsOK, contentOK, Bool.true_and, Bool.and_true, Bool.not_eq_false', pathMatches, hE,
+    Bool.false_or, List.any_eq_true, Bool.or_eq_true]
+  constructor
+  · rintro ⟨p, hp, h | h⟩
+    · have := hseg p hp; cases p <;> simp at h this
+    · exact ⟨p, hp, (selected_iff p rel).1 h⟩
+  · rintro ⟨p, hp, h⟩
+    exact ⟨p, hp, Or.inr ((selected_iff p rel).2 h)⟩
+
+/-- `content`: config keeps config nodes; nonconfig keeps non-config leaves and every container -/
+theorem content_visible (isLeaf cfg : Bool) (rel : Path) :
+    visible { content := .config } isLeaf cfg rel = cfg ∧
+    visible { content := .nonconfig } isLeaf cfg rel = (if isLeaf then !cfg else true) := by
+  constructor <;> simp [visible_is_conjunction, depthOK, fieldsOK, xfieldsOK, contentOK]
+
+/-- **`depth=n` keeps exactly the nodes at most n levels below the target** — for every schema and tree,
+    a list and its entries counting as one level, defaults of created nodes included -/
+theorem depth_exact (n : Nat) (ks : List QS) (b : List QD) :
+    projTarget { depth := some n } ks b = cutBody n false ks b :=
+  proj_depth_body ks b n false [] n (by simp)
+
+/-- **`with-defaults=trim`**: a leaf is left out exactly when it is unset or equals its default -/
+theorem trim_exact (d x : Val) :
+    trimmed { trim := true } (some d) (some x) = (if x = d then none else some x) ∧
+    trimmed { trim := true } none (some x) = some x ∧
+    (∀ dv v, trimmed { trim := false } dv v = v) := by
+  refine ⟨by simp [trimmed], by simp [trimmed], fun dv v => by simp [trimmed]⟩
+
+/-- **`fc.range=sel!s-e`**: of a list the selector names exactly, rows s..e (both included, in order);
+    of every other list — also one nested in the entries of a named list — all rows -/
+theorem range_rows (ps : List Path) (s : Nat) (e : Option Nat) (rel : Path) (rows : List α) :
+    window { range := some (ps, s, e) } rel rows =
+      if pathMatchesExactly ps rel then
+        (match e with | none => rows.drop s | some e => (rows.drop s).take (e + 1 - s))
+      else rows := by
+  simp only [window]
+  split <;> rfl
+
+/-- … and a selector path names a list exactly iff it equals the list's path below the target -/
+theorem exact_iff (ps : List Path) (rel : Path) (hne : ps ≠ []) :
+    pathMatchesExactly ps rel = true ↔ rel ∈ ps := by
+  have hE : ps.isEmpty = false := by cases ps <;> simp at hne ⊢
+  simp only [pathMatchesExactly, hE, Bool.false_eq_true, if_false, List.any_eq_true, Bool.and_eq_true, beq_iff_eq]
+  constructor
+  · rintro ⟨p, hp, hl, hs⟩
+    have := (selected_iff p rel).1 hs
+    have := List.IsPrefix.eq_of_length this hl
+    subst this; exact hp
+  · intro h; exact ⟨rel, h, rfl, (selected_iff rel rel).2 (List.prefix_refl _)⟩
+
+/-- **a constrained read is a part of the unconstrained read**: whatever the parameters, every value
+    returned is the value of the full read, every container returned is one of the full read with part
+    of its content, the rows returned are a contiguous run of the rows in order — nothing is invented,
+    altered or reordered -/
+theorem constrained_part_of_full (q : Query) (ks : List QS) (b : List QD) :
+    SubBody ks (projTarget q ks b) (projTarget noQ ks b) := proj_sub_body q ks b false []
+
+/-! #### non-vacuity / the expressions the pinned tree got wrong -/
+example : parseExpr [.lp, .seg "a", .semi, .seg "b", .rp, .seg "c"] = some [["a", "c"], ["b", "c"]] := by decide
+example : parseExpr [.seg "a", .semi, .lp, .seg "b", .semi, .seg "c", .rp] = some [["a"], ["b"], ["c"]] := by decide
+example : parseExpr [.seg "a", .slash, .seg "b", .slash, .seg "c", .slash, .lp, .seg "x", .semi, .seg "y", .rp] =
+    some [["a", "b", "c", "x"], ["a", "b", "c", "y"]] := by decide
+example : parseExpr [.seg "a", .lp, .seg "b"] = none ∧ parseExpr [.seg "a", .rp, .seg "b"] = none := by decide
+example : denoteAlts [[.seg "a", .group [[.seg "b"], [.seg "c", .seg "d"]], .seg "e"], [.seg "f"]] =
+    [["a", "b", "e"], ["a", "c", "d", "e"], ["f"]] := by decide
+example : visible { fields := some [["a", "c"]] } false true ["a"] = true ∧
+          visible { fields := some [["a", "c"]] } true true ["a", "b"] = false ∧
+          visible { fields := some [["a", "c"]] } true true ["a", "c", "d"] = true := by decide
+example : window { range := some ([["l"]], 1, some 2) } ["l"] [10, 11, 12, 13] = [11, 12] ∧
+          window { range := some ([["l"]], 1, some 2) } ["l", "m"] [10, 11, 12, 13] = [10, 11, 12, 13] ∧
+          window { range := some ([["l"]], 3, some 1) } ["l"] [10, 11, 12, 13] = [] := by decide
 
 end YangVerif.C07
